@@ -16,7 +16,7 @@ def run(ctx):
     q = ctx.tier == "quick"
     vmax = 3 if q else 4
     conds = [Cond(f"re-initialise-after/{name}", "c06", "h_isolated", {"VF_HIST": h, "VF_VMAX": vmax}, 900 if q else 3000)
-             for h, name in enumerate(HIST)]
+             for h, name in enumerate(HIST) if h != 7 or not q]
     conds += [Cond(f"re-initialise-after/{name}/replication starts at 2", "c06", "h_isolated",
                    {"VF_HIST": h, "VF_VMAX": vmax, "VF_START": 2}, 900 if q else 3000)
               for h, name in enumerate(HIST) if h in ((1, 4) if q else (0, 1, 2, 3, 4, 5, 6))]
